@@ -39,7 +39,7 @@ func incErrClass(err error) string {
 
 func runC08(ctx *Ctx) {
 	var names []string
-	enumStrings([]byte{'.', '/', '\\', 'a'}, ctx.Budget(8, 10), func(s []byte) { names = append(names, string(s)) })
+	enumStrings([]byte{'.', '/', '\\', 'a'}, ctx.Len(8, 10), func(s []byte) { names = append(names, string(s)) })
 	r := ctx.Rng.Fork()
 	for i := 0; i < ctx.Budget(20000, 500000); i++ {
 		names = append(names, string(r.Bytes([]byte{'.', '.', '/', '\\', 'a', 'b', ' ', 0xc3, '-'}, r.Intn(16))))
